@@ -132,7 +132,15 @@ pub fn strategy() -> impl Strategy<Value = Case> {
         .prop_map(|(kinds, filters, (mut routing, _fl, rt, style, refresh, aw, rlw, prepopulate))| {
             // console appenders are declared but only attached to a logger that is off (presence only)
             let mut apps = vec![];
-            for ((name, kind), f) in routing.appenders.clone().into_iter().zip(kinds).zip(filters) {
+            for ((name, mut kind), f) in routing.appenders.clone().into_iter().zip(kinds).zip(filters) {
+                // the default pattern and the JSON encoder print the time with a varying number of fractional
+                // digits, so record sizes - and with them size-triggered rotation points - would differ between
+                // the loaded configuration and its twin: size triggers are paired with the clock-free pattern
+                if let Kind::Rolling { enc, trigger: Trig::Size(..), .. } = &mut kind {
+                    if !matches!(enc, Enc::Pattern { pattern: Some(_), .. }) {
+                        *enc = Enc::Pattern { kind_key: matches!(enc, Enc::Json), pattern: Some(CLOCK_FREE.to_string()) };
+                    }
+                }
                 apps.push(LApp { name, kind, filters: f });
             }
             let consoles: Vec<String> = apps.iter().filter(|a| matches!(a.kind, Kind::Console { .. })).map(|a| a.name.clone()).collect();
